@@ -16,6 +16,10 @@ import (
 	"github.com/fido-device-onboard/go-fdo/serviceinfo"
 )
 
+// maxDevmodModules is the largest value of devmod:nummodules that will be
+// accepted from a device.
+const maxDevmodModules = 65535
+
 type devmodOwnerModule struct {
 	serviceinfo.Devmod
 	Modules []string
@@ -30,6 +34,9 @@ func (d *devmodOwnerModule) HandleInfo(ctx context.Context, messageName string, 
 		var numModules int
 		if err := cbor.NewDecoder(messageBody).Decode(&numModules); err != nil {
 			return err
+		}
+		if numModules < 0 || numModules > maxDevmodModules {
+			return fmt.Errorf("invalid devmod nummodules: %d", numModules)
 		}
 		d.Modules = make([]string, numModules)
 		return nil
@@ -71,6 +78,9 @@ func (d *devmodOwnerModule) parseModules(messageBody io.Reader) error {
 		// indicate the start index of the full module array to populate.
 		if idx := slices.Index(d.Modules, ""); idx != -1 && chunk.Start != idx {
 			chunk.Start = idx
+		}
+		if chunk.Start+chunk.Len > len(d.Modules) {
+			return fmt.Errorf("devmod module chunk exceeds nummodules")
 		}
 
 		copy(d.Modules[chunk.Start:chunk.Start+chunk.Len], chunk.Modules)
